@@ -109,6 +109,32 @@ def mutate(case, rnd):
     return kind
 
 
+def decoys(case, rnd, text):
+    """Other operations in the same document that declare the variables of Q under the same names with other types
+    (stricter or weaker) and use them where those types fit: whatever validation remembers per variable name or per
+    operation must not leak from one operation into the next. Q is executed by name."""
+    defs, uses = [], []
+    for k, v in enumerate(case["doc"]["vardefs"]):
+        t = v["type"]
+        base = gqlmini.named_of(t)
+        if t[0] == "L" or (t[0] == "NN" and t[1][0] == "L"):
+            if rnd.random() < 0.5:
+                defs.append(f"${v['name']}: [Int!]!"); uses.append(f"d{k}: sum(xs: ${v['name']})")
+            else:
+                defs.append(f"${v['name']}: [Int]"); uses.append(f"d{k}: sum(ys: ${v['name']})")
+        elif base == "Boolean":
+            defs.append(f"${v['name']}: Boolean!"); uses.append(f"d{k}: a @include(if: ${v['name']})")
+        elif t[0] == "NN":
+            defs.append(f"${v['name']}: Int"); uses.append(f"d{k}: f(x: ${v['name']})")
+        else:
+            defs.append(f"${v['name']}: Int!"); uses.append(f"d{k}: g(req: ${v['name']})")
+    if not defs:
+        return text
+    before = "".join(f"query D{j}({', '.join(defs)}) {{ {' '.join(uses)} }} " for j in range(rnd.randint(0, 2)))
+    after = "".join(f" query E{j}({', '.join(defs)}) {{ {' '.join(uses)} }}" for j in range(rnd.randint(0 if before else 1, 1)))
+    return before + text + after
+
+
 def _chunk(seeds):
     from graphql import parse, validate, execute_sync, GraphQLError
     out = []
@@ -123,6 +149,8 @@ def _chunk(seeds):
         if conforming:
             case["root"] = gqlmini.prune(gqlmini.gen_conforming_obj(rnd, "Query", 3), gqlmini.doc_field_names(case["doc"]))
         text = gqlmini.render_doc(case)
+        if sd % 3 == 0 or (mkind in ("nullable-var", "nullable-var-in-list", "var-type") and sd % 2 == 0):
+            text = decoys(case, rnd, text)
         try:
             doc = parse(text)
         except GraphQLError:
@@ -138,7 +166,7 @@ def _chunk(seeds):
             continue
         calls = []
         try:
-            res = execute_sync(gqlmini.schema(), doc, gqlmini.to_py(case["root"]), variable_values=gqlmini.render_vars(case),
+            res = execute_sync(gqlmini.schema(), doc, gqlmini.to_py(case["root"]), variable_values=gqlmini.render_vars(case), operation_name="Q",
                                field_resolver=gqlmini.make_resolver(calls), type_resolver=gqlmini.type_resolver)
         except Exception as e:  # noqa: BLE001
             out.append({"viol": ("execute-raises-on-validated-document", f"{type(e).__name__}: {str(e)[:120]}"), "_meta": {"seed": sd, "query": text, "mutation": mkind}})
